@@ -40,7 +40,10 @@ TEMPLATES = [
     "def {n}(x):\n    if x == {k} % 3:\n        raise TypeError('outside the domain')\n    return {r} + x",
     # a cells of a child space reading a cells of the PARENT space by attribute path (`_space.parent.rate(x)`)
     "def {n}(x): return _space.parent.{a}(x) + {k}",
+    # (not drawn by gen_formula; scenario families only) a reference read as an attribute of the space itself
+    "def {n}(x): return _space.{r} + x",
 ]
+N_GEN_TEMPLATES = 16
 N_BASE_TEMPLATES = 11
 
 # formulas of parametrised spaces (`set_param path [i, r, c, a]`; `set_param path 1` is SPACE_TEMPLATES[1]).
@@ -82,7 +85,7 @@ NEEDS = [set(), {"a"}, {"r"}, {"c", "cr"}, {"c", "ca"}, {"a"}, {"r"}, {"u"}, {"a
 def gen_formula(rng, spaces, space=None, ext=False):
     """mostly names that resolve in `space` (a live UserSpace), sometimes arbitrary ones;
     ext: the extended templates too (the draws of the other properties do not move)"""
-    n_templates = len(TEMPLATES) if ext else N_BASE_TEMPLATES
+    n_templates = N_GEN_TEMPLATES if ext else N_BASE_TEMPLATES
     if space is None or rng.random() < 0.12:
         return (rng.randrange(n_templates), rng.randint(1, 5), rng.choice(CELLS), rng.choice(REFS), rng.choice(CHILD))
     cells = list(space.cells)
